@@ -95,7 +95,8 @@ def rename_locals(fnode):
                and not s.startswith("__")}
     if not targets:
         return 0
-    table = {s: s + "_rn" for s in targets}
+    # opaque names: no rule may recognise a variable by (part of) its name
+    table = {s: "v%d_" % k for k, s in enumerate(sorted(targets))}
     for n in _own_nodes(fnode):
         if isinstance(n, ast.Name) and n.id in table:
             n.id = table[n.id]
@@ -305,7 +306,57 @@ def swap_branches(fnode):
     return n[0]
 
 
+def alias_params(fnode):
+    """`def f(p): ...` -> `def f(p): p_al = p; ...` with every use of p in the
+    body replaced by p_al (tests that rules do not hinge on parameter
+    spellings)."""
+    a = fnode.args
+    params = [x.arg for x in a.posonlyargs + a.args + a.kwonlyargs
+              if x.arg not in ("self", "cls")]
+    if not params:
+        return 0
+    nested_args = set()
+    declared = set()
+    for n in _own_nodes(fnode):
+        if isinstance(n, ast.arg):
+            nested_args.add(n.arg)
+        elif isinstance(n, (ast.Global, ast.Nonlocal)):
+            declared |= set(n.names)
+        elif isinstance(n, ast.Call) and isinstance(n.func, ast.Name) and \
+                n.func.id in ("locals", "vars", "eval", "exec", "super"):
+            if n.func.id != "super":
+                return 0
+    own_args = {x.arg for x in ast.walk(a) if isinstance(x, ast.arg)}
+    nested_only = set()
+    for n in _own_nodes(fnode):
+        if isinstance(n, (ast.FunctionDef, ast.AsyncFunctionDef, ast.Lambda)):
+            for x in ast.walk(n.args):
+                if isinstance(x, ast.arg):
+                    nested_only.add(x.arg)
+    targets = [p for p in params if p not in nested_only
+               and p not in declared]
+    if not targets:
+        return 0
+    table = {p: p + "_al" for p in targets}
+    body = fnode.body
+    doc = []
+    if body and isinstance(body[0], ast.Expr) and isinstance(
+            body[0].value, ast.Constant) and isinstance(body[0].value.value,
+                                                        str):
+        doc, body = [body[0]], body[1:]
+    for st in body:
+        for n in ast.walk(st):
+            if isinstance(n, ast.Name) and n.id in table:
+                n.id = table[n.id]
+    pre = [ast.Assign(targets=[ast.Name(id=table[p], ctx=ast.Store())],
+                      value=ast.Name(id=p, ctx=ast.Load()), lineno=fnode.lineno,
+                      col_offset=0) for p in targets]
+    fnode.body = doc + pre + body
+    return len(targets)
+
+
 PER_FUNCTION = {
+    "alias-params": alias_params,
     "rename-locals": rename_locals,
     "ifexp-to-if": ifexp_to_if,
     "flag-guards": flag_guards,
@@ -318,10 +369,58 @@ PER_MODULE = {
 }
 
 
+def private_attrs(repo):
+    """Private instance attributes (`self._x = ...`) of the package's
+    classes, excluding names that also occur in string literals (getattr,
+    __slots__, ...) or as keyword names."""
+    names = set()
+    strings = set()
+    for m in repo.modules.values():
+        for n in ast.walk(m.tree):
+            if isinstance(n, ast.Attribute) and isinstance(n.ctx, ast.Store) \
+                    and isinstance(n.value, ast.Name) and n.value.id == "self" \
+                    and n.attr.startswith("_") and not n.attr.startswith("__"):
+                names.add(n.attr)
+            elif isinstance(n, ast.Constant) and isinstance(n.value, str):
+                strings.add(n.value)
+            elif isinstance(n, ast.keyword) and n.arg:
+                strings.add(n.arg)
+    # attributes of library objects that happen to be private-looking
+    # (nibabel's proxy._slope / _inter) are not ours to rename
+    return sorted(a for a in names if a not in strings
+                  and a not in ("_slope", "_inter"))
+
+
+def _opaque(attr):
+    import zlib
+    return "_pa%x" % (zlib.crc32(attr.encode()) & 0xffff)
+
+
+def rename_private_attr(tree, attr):
+    n_ = 0
+    for n in ast.walk(tree):
+        if isinstance(n, ast.Attribute) and n.attr == attr:
+            n.attr = _opaque(attr)
+            n_ += 1
+        elif isinstance(n, ast.ClassDef):
+            for st in n.body:
+                if isinstance(st, (ast.Assign, ast.AnnAssign)):
+                    tg = st.targets if isinstance(st, ast.Assign) else [st.target]
+                    for t in tg:
+                        if isinstance(t, ast.Name) and t.id == attr:
+                            t.id = _opaque(attr)
+                            n_ += 1
+    return n_
+
+
 # ---------------------------------------------------------------------
 def enumerate_tasks(ops):
     repo = Repo()
     tasks = []
+    if "rename-private-attr" in ops:
+        for a in private_attrs(repo):
+            tasks.append(("rename-private-attr", None, a))
+        ops = [o for o in ops if o != "rename-private-attr"]
     for mn, m in sorted(repo.modules.items()):
         tree = m.tree
         for op in ops:
@@ -343,16 +442,24 @@ def _run(args):
     d = tempfile.mkdtemp(prefix="b.", dir=scratch)
     try:
         shutil.copytree(os.path.join(repo_root(), "src"), os.path.join(d, "src"))
-        path = os.path.join(d, relpath)
-        tree = ast.parse(open(path).read())
-        if qn is None:
-            PER_MODULE[op](tree)
+        if op == "rename-private-attr":
+            import glob
+            for path in glob.glob(os.path.join(d, "src", "**", "*.py"),
+                                  recursive=True):
+                tree = ast.parse(open(path).read())
+                if rename_private_attr(tree, qn):
+                    open(path, "w").write(ast.unparse(tree) + "\n")
         else:
-            for q, fnode in _functions(tree):
-                if q == qn:
-                    PER_FUNCTION[op](fnode)
-        ast.fix_missing_locations(tree)
-        open(path, "w").write(ast.unparse(tree) + "\n")
+            path = os.path.join(d, relpath)
+            tree = ast.parse(open(path).read())
+            if qn is None:
+                PER_MODULE[op](tree)
+            else:
+                for q, fnode in _functions(tree):
+                    if q == qn:
+                        PER_FUNCTION[op](fnode)
+            ast.fix_missing_locations(tree)
+            open(path, "w").write(ast.unparse(tree) + "\n")
         alarms = []
         for prop in props:
             try:
@@ -380,7 +487,8 @@ def _run(args):
 def sweep(ops=None, props=None, jobs=16, limit=None, seed=0):
     from . import props as P
     t0 = time.time()
-    ops = ops or sorted(PER_FUNCTION) + sorted(PER_MODULE)
+    ops = ops or sorted(PER_FUNCTION) + sorted(PER_MODULE) + \
+        ["rename-private-attr"]
     props = props or sorted(P.PROPS)
     tasks = enumerate_tasks(ops)
     if limit and len(tasks) > limit:
